@@ -677,9 +677,31 @@ pub fn shrink_until(start: &Doc, budget: usize, deadline: Option<std::time::Inst
 // ---------------------------------------------------------------------------------------------
 // the per-property runner
 
+/// the requests of one batch spread round-robin over several driver processes (the driver answers every request on its
+/// own — no state between requests —, so the answers are those of one process; only the wall-clock time changes)
+pub fn par_batch(drv: &mut Driver, pool: &mut [Driver], reqs: &[Sexp]) -> Vec<Sexp> {
+    let n = 1 + pool.len();
+    if n == 1 || reqs.len() < 2 * n {
+        return drv.batch(reqs);
+    }
+    let mut parts: Vec<Vec<Sexp>> = vec![vec![]; n];
+    for (i, r) in reqs.iter().enumerate() {
+        parts[i % n].push(r.clone());
+    }
+    let mut drivers: Vec<&mut Driver> = std::iter::once(drv).chain(pool.iter_mut()).collect();
+    let answers: Vec<Vec<Sexp>> = std::thread::scope(|sc| {
+        let handles: Vec<_> = drivers.drain(..).zip(parts.iter()).map(|(d, p)| sc.spawn(move || d.batch(p))).collect();
+        handles.into_iter().map(|h| h.join().expect("driver thread")).collect()
+    });
+    let mut its: Vec<std::vec::IntoIter<Sexp>> = answers.into_iter().map(|v| v.into_iter()).collect();
+    (0..reqs.len()).map(|i| its[i % n].next().expect("answer")).collect()
+}
+
 pub struct Runner<'a> {
     pub rep: &'a mut Report,
     pub drv: &'a mut Driver,
+    /// further driver processes for the batches (see `par_batch`)
+    pub pool: Vec<Driver>,
     /// "oracle.c01" or "oracle.c02"
     pub which: &'static str,
     pub cap: usize,
@@ -796,7 +818,7 @@ impl<'a> Runner<'a> {
                 writeln!(f, "{}", r.to_line()).unwrap();
             }
         }
-        let answers = self.drv.batch(&reqs);
+        let answers = par_batch(self.drv, &mut self.pool, &reqs);
         let t2 = std::time::Instant::now();
         let mut ai = 0;
         for (i, p) in preps {
@@ -1449,7 +1471,10 @@ pub fn main_for(property: &str, which: &'static str) {
         (_, true) => 500,
     };
     {
-        let mut r = Runner { rep: &mut rep, drv: &mut drv, which, cap, shrink_budget: 1200, max_shrinks: if args.thorough() || search { 400 } else { 24 }, shrinks_done: 0,
+        // the Lean driver is single-threaded and dominates the run: batches are spread over 3 processes (NV_DRIVERS=n overrides)
+        let n_drivers: usize = std::env::var("NV_DRIVERS").ok().and_then(|s| s.parse().ok()).unwrap_or(3).clamp(1, 8);
+        let pool: Vec<Driver> = if args.replay.is_some() { vec![] } else { (1..n_drivers).map(|_| Driver::spawn(&args.driver)).collect() };
+        let mut r = Runner { rep: &mut rep, drv: &mut drv, pool, which, cap, shrink_budget: 1200, max_shrinks: if args.thorough() || search { 400 } else { 24 }, shrinks_done: 0,
             per_class: Default::default(), max_per_class: if args.thorough() || search { 4 } else { 1 }, shrink_seconds: if args.thorough() || search { 120 } else { 20 } };
         if let Some(path) = &args.replay {
             let v: Value = serde_json::from_str(&std::fs::read_to_string(path).expect("replay file")).expect("replay json");
